@@ -1,6 +1,7 @@
 import CkbVerif.Lemmas.EpochNext
 import CkbVerif.Lemmas.EpochCompact
 import CkbVerif.Lemmas.EpochChain
+import CkbVerif.Lemmas.EpochCtx
 
 /-!
 # C07 — epoch length, difficulty and per-block issuance arithmetic stay within spec
@@ -543,5 +544,161 @@ theorem header_accept_iff (compact digest : Nat) (known : Bool) (pn hn pe he : N
   by_cases hnum : hn = pn + 1
   · cases he' : epochVerify pe he <;> simp [hnum]
   · cases he' : epochVerify pe he <;> simp [hnum]
+
+/-! ## contextual `EpochVerifier` (what a node demands of every block it connects)
+
+`ContextualBlockVerifier::verify` runs `EpochVerifier::new(&next_epoch_ext(parent).epoch(), block)`
+first; `chainVerify s f c` is its answer for a child of the tip `s` carrying epoch field `f` and compact
+target `c` (tied by the `nv` lines of the `node` stream: rejected variants of real blocks, with the
+`EpochError` variant compared). -/
+
+/-- accepted iff the block number is inside/after the epoch start, the header's epoch field (the full
+u64) is `number_with_fraction(number)` and the compact target is the epoch's -/
+theorem ctx_epoch_accept_iff (e : EpochExt) (n f c : Nat) :
+    ctxEpochVerify e n f c = some .ok ↔
+      e.start ≤ n ∧ f = enfPack e.number (n - e.start) e.length ∧ c = e.compact :=
+  ctxEpochVerify_ok_iff e n f c
+
+/-- the order of the two checks: `TargetMismatch` is only reported for a correct epoch field, a wrong
+epoch field is always `NumberMismatch` (whatever the target) -/
+theorem ctx_epoch_number_checked_first (e : EpochExt) (n f c : Nat) (hs : e.start ≤ n) :
+    (ctxEpochVerify e n f c = some .numberMismatch ↔ f ≠ enfPack e.number (n - e.start) e.length) ∧
+    (ctxEpochVerify e n f c = some .targetMismatch ↔
+      f = enfPack e.number (n - e.start) e.length ∧ c ≠ e.compact) := by
+  have hf : numberWithFraction e n = some (enfPack e.number (n - e.start) e.length) := by
+    unfold numberWithFraction subChk; simp [hs]
+  rw [ctxEpochVerify_of_field hf]
+  by_cases h1 : f = enfPack e.number (n - e.start) e.length
+  · by_cases h2 : e.compact = c
+    · simp [h1, h2]
+    · have : ¬ (c = e.compact) := fun h => h2 h.symm
+      simp [h1, h2, this]
+  · simp [h1]
+
+/-- For every chain state: the contextual verifier accepts EXACTLY ONE (epoch field, compact target)
+pair for the next block — the one the whole-chain view computes (`chainStep`), whatever the new
+block's own timestamp and uncles. -/
+theorem chain_verify_accepts_exactly_chain_step {s s' : ChainSt} {ts u field compact : Nat} {head : Bool}
+    (h : chainStep s ts u = some (s', field, compact, head)) (f c : Nat) :
+    chainVerify s f c = some .ok ↔ f = field ∧ c = compact := by
+  obtain ⟨e, he, hf, hc, _, _, _⟩ := chainStep_some h
+  unfold chainVerify
+  rw [he]
+  simp only [Option.bind_eq_bind, Option.bind_some]
+  rw [ctxEpochVerify_of_field hf, hc]
+  by_cases h1 : f = field
+  · by_cases h2 : e.compact = c
+    · simp [h1, h2]
+    · have : ¬ (c = e.compact) := fun h => h2 h.symm
+      simp [h1, h2, this]
+  · simp [h1]
+
+/-- Conversely a block the contextual verifier accepts IS a step of the whole-chain view (for any
+timestamp / uncle count of the new block) … -/
+theorem chain_verify_ok_is_chain_step {s : ChainSt} {f c : Nat} (h : chainVerify s f c = some .ok)
+    (ts u : Nat) : ∃ s' head, chainStep s ts u = some (s', f, c, head) := by
+  unfold chainVerify at h
+  simp only [Option.bind_eq_bind, Option.bind_eq_some_iff] at h
+  obtain ⟨⟨e, hd⟩, he, hv⟩ := h
+  obtain ⟨hs, hf, hc⟩ := (ctxEpochVerify_ok_iff e _ f c).mp hv
+  have hnf : numberWithFraction e (s.tipNumber + 1) = some f := by
+    unfold numberWithFraction subChk; simp [hs, hf]
+  unfold chainStep
+  rw [he]
+  simp only [Option.bind_eq_bind, Option.bind_some, hnf, hc]
+  exact ⟨_, _, rfl⟩
+
+/-- … hence its epoch field is the next position after the tip's, accepted by the non-contextual
+`EpochVerifier` too: consecutive blocks connected by a node carry gap-free epoch fields. -/
+theorem ctx_accepted_child_is_next_position {s : ChainSt} {f c : Nat} (inv : ChainInv s)
+    (hnum : s.cur.number + 1 < 2 ^ 24) (h : chainVerify s f c = some .ok) :
+    epochVerify (tipField s) f = .ok := by
+  obtain ⟨s', head, hstep⟩ := chain_verify_ok_is_chain_step h 0 0
+  exact (chainStep_spec hstep inv hnum).2.2.2.2.1
+
+/-- a 2-block genesis epoch: after block 1 the only accepted child is 1(0/4) with the new target -/
+def exampleTip : ChainSt :=
+  { P := { T := 16, initial := 1000, halving := 3 },
+    cur := { number := 0, base := 500, rem := 0, prevHR := 1, start := 0, length := 2, compact := 0x20010000 },
+    lastEndTs := 0, lastEndTU := 0, tu := 0, tipNumber := 1, tipTs := 8000 }
+
+example : chainVerify exampleTip (enfPack 1 0 4) 538968064 = some .ok ∧
+    chainVerify exampleTip (enfPack 1 0 2) 538968064 = some .numberMismatch ∧
+    chainVerify exampleTip (enfPack 1 0 2) 0x20010000 = some .numberMismatch ∧
+    chainVerify exampleTip (enfPack 1 0 4) 0x20010000 = some .targetMismatch := by
+  decide +kernel
+
+/-! ## primary rewards along a whole chain -/
+
+/-- one block keeps the reward invariant: the epoch of the new tip hands out exactly the scheduled
+primary reward of its number (halving at multiples of the interval), remainder below its length -/
+theorem chain_step_rewards_on_schedule {s s' : ChainSt} {ts u field compact : Nat} {head : Bool}
+    (h : chainStep s ts u = some (s', field, compact, head)) (inv : ChainInv s)
+    (hnum : s.cur.number + 1 < 2 ^ 24) (hinit : s.P.initial < U64) (hh : s.P.halving ≠ 0)
+    (hr : RewardInv s) : RewardInv s' ∧ s'.P = s.P := by
+  obtain ⟨_, _, _, _, hP, _, _⟩ := chainStep_some h
+  obtain ⟨_, _, _, _, _, hnh, hhd⟩ := chainStep_spec h inv hnum
+  refine ⟨?_, hP⟩
+  unfold RewardInv
+  rw [hP]
+  cases head with
+  | false => rw [hnh rfl]; exact hr
+  | true =>
+    obtain ⟨_, hne⟩ := hhd rfl
+    obtain ⟨_, h2⟩ := next_epoch_reward_on_schedule hne hinit hh hr.1
+    obtain ⟨R, _, _, h3, _⟩ := next_epoch_rewards_sum hne hinit
+    exact ⟨h2, h3⟩
+
+/-- `chain_rewards_on_schedule`: along ANY chain of the whole-chain view (any timestamps, uncle
+counts, number of epochs and epoch lengths) starting from an epoch that hands out its scheduled reward
+(the genesis epoch is built so), every epoch reached hands out the scheduled primary reward of its
+number. -/
+theorem chain_rewards_on_schedule (bs : List (Nat × Nat)) :
+    ∀ (s s' : ChainSt), ChainInv s → RewardInv s → s.cur.number + bs.length < 2 ^ 24 →
+      s.P.initial < U64 → s.P.halving ≠ 0 → chainRun s bs = some s' →
+      ChainInv s' ∧ RewardInv s' ∧ s'.P = s.P := by
+  induction bs with
+  | nil => intro s s' inv hr _ _ _ h; simp [chainRun] at h; subst h; exact ⟨inv, hr, rfl⟩
+  | cons b rest ih =>
+    intro s s' inv hr hn hinit hh h
+    obtain ⟨ts, u⟩ := b
+    simp only [chainRun, Option.bind_eq_bind, Option.bind_eq_some_iff] at h
+    obtain ⟨⟨s1, f, c, hd⟩, hstep, hrest⟩ := h
+    simp only [List.length_cons] at hn
+    obtain ⟨inv1, _, _, _, _, hnh, hhd⟩ := chainStep_spec hstep inv (by omega)
+    obtain ⟨hr1, hP1⟩ := chain_step_rewards_on_schedule hstep inv (by omega) hinit hh hr
+    have hnum1 : s1.cur.number + rest.length < 2 ^ 24 := by
+      cases hd with
+      | false => rw [hnh rfl]; omega
+      | true =>
+        obtain ⟨_, hne⟩ := hhd rfl
+        obtain ⟨_, _, _, _, _, _, _, _, _, _, _, _, _, _, _, _, _, ho⟩ := nextEpochExt_some hne
+        have : s1.cur.number = s.cur.number + 1 := by rw [ho]
+        omega
+    obtain ⟨a, b, c⟩ := ih s1 s' inv1 hr1 hnum1 (by rw [hP1]; exact hinit) (by rw [hP1]; exact hh) hrest
+    exact ⟨a, b, by rw [c, hP1]⟩
+
+/-- … and its blocks' rewards (`block_reward(number)`: `base + 1` for the first `rem` blocks, then
+`base`) sum over the whole epoch — for EVERY epoch length the chain reaches — to exactly
+`initial >> (number / halving_interval)`. -/
+theorem chain_epoch_block_rewards_sum {s s' : ChainSt} {bs : List (Nat × Nat)}
+    (inv : ChainInv s) (hr : RewardInv s) (hn : s.cur.number + bs.length < 2 ^ 24)
+    (hinit : s.P.initial + 1 < U64) (hh : s.P.halving ≠ 0) (h : chainRun s bs = some s')
+    (hstart : s'.cur.start + s'.cur.length ≤ U64) (h64 : s'.cur.number / s.P.halving < 64) :
+    ∃ f : Nat → Nat, (∀ i, blockReward s'.cur (s'.cur.start + i) = some (f i)) ∧
+      ((List.range s'.cur.length).map f).sum = s.P.initial / 2 ^ (s'.cur.number / s.P.halving) := by
+  obtain ⟨_, ⟨hr1, hr2⟩, hP⟩ := chain_rewards_on_schedule bs s s' inv hr hn (by omega) hh h
+  rw [hP] at hr1
+  rw [primaryEpochReward_eq _ hh h64] at hr1
+  have hpr := hr1
+  obtain ⟨hRlt, hR⟩ := primaryReward_some hpr
+  have hRle : s.P.initial / 2 ^ (s'.cur.number / s.P.halving) ≤ s.P.initial := Nat.div_le_self _ _
+  have hL : 1 ≤ s'.cur.length := by omega
+  have hb : s'.cur.base ≤ s.P.initial / 2 ^ (s'.cur.number / s.P.halving) := by
+    rw [hR]
+    have : s'.cur.base * 1 ≤ s'.cur.base * s'.cur.length := Nat.mul_le_mul_left _ hL
+    omega
+  obtain ⟨f, hf, hsum⟩ := rewards_sum_to_epoch_reward s'.cur (by omega) (by omega) (by omega)
+  exact ⟨f, hf, by rw [hsum, ← hR]⟩
 
 end CkbVerif.C07
